@@ -497,7 +497,7 @@ func (cdfFile *CDRFile) Decoding(fileName string) {
 		tail++
 	}
 	if cdfFile.Hdr.LowReleaseIdentifier == 7 {
-		cdfFile.Hdr.LowReleaseIdentifierExtension = data[n+1]
+		cdfFile.Hdr.LowReleaseIdentifierExtension = data[tail]
 		tail++
 	}
 
